@@ -45,5 +45,7 @@ typedef struct { void* data; size_t size; } VF_Vec;
 #define VF_NEW(v, n) do { (v).size = (n); (v).data = calloc(((n) ? (n) : 1), sizeof(*(v).data)); __CPROVER_assume((v).data != NULL); } while (0)
 typedef struct { bool* data; size_t size; } VecBool;
 typedef struct { double* data; size_t size; } VecDouble;
+typedef struct { bool has; size_t val; } VF_OptSize;
+#define VF_NULLOPT ((VF_OptSize){0, 0})
 #define VF_CANARY() __CPROVER_assert(0, "VF_CANARY reachability")
 #endif
